@@ -266,12 +266,12 @@ def dynamic_rule(ctx):
             pass
         sub_loop = [n for n in sir.walk(g.body) if n.get("k") == "for" and "sub_templates" in sir.expr_str(n["e"])]
         sub_vals, main_vals = [], []
-        for n in sir.walk(g.body):
-            if n.get("k") == "struct" and n["path"].endswith("ScopeAnalyzeState"):
-                v = [fl for fl in n["fields"] if fl["name"] == "inside_dynamic_tree"]
-                val = v[0]["e"].get("v") if v else None
-                in_sub = any(any(y is n for y in sir.walk(lp)) for lp in sub_loop)
-                (sub_vals if in_sub else main_vals).append(val)
+        from rules.c05 import scope_state_inits
+        for n, fields in scope_state_inits(tc, g):
+            lits = [str(e_.get("v")) for e_ in (fields.get("inside_dynamic_tree") or []) if e_.get("k") == "lit"]
+            val = lits[-1] if lits else None
+            in_sub = any(any(y is n for y in sir.walk(lp)) for lp in sub_loop)
+            (sub_vals if in_sub else main_vals).append(val)
         ok = sub_vals and all(int(x) >= 1 for x in sub_vals if x is not None) and main_vals == ["0"]
         obs.append(ob("C07.dynamic/template-bodies/analysis", bool(ok), ctx.where(g), "<template name> bodies analysed with counter %s, main content with %s" % (sub_vals, main_vals)))
     tg = [g for g in tc.fns if g.base == "Template" and g.name == "to_proc_gen" and g.body]
